@@ -590,10 +590,61 @@ func describe(v ssa.Value) string {
 	if v == nil {
 		return "<nil>"
 	}
+	switch x := v.(type) {
+	case *ssa.Call:
+		if obj := calleeObj(&x.Call); obj != nil {
+			return "result of " + obj.Name()
+		}
+		if b, ok := x.Call.Value.(*ssa.Builtin); ok {
+			return "result of " + b.Name()
+		}
+		return "call result"
+	case *ssa.Extract:
+		return fmt.Sprintf("result #%d of %s", x.Index, strings.TrimPrefix(describe(x.Tuple), "result of "))
+	case *ssa.Const:
+		return x.String()
+	case *ssa.Slice:
+		return "slice of " + describe(x.X)
+	case *ssa.ChangeType:
+		return describe(x.X)
+	case *ssa.Convert:
+		return describe(x.X)
+	case *ssa.MakeInterface:
+		return describe(x.X)
+	}
 	if p, ok := pathOf(v); ok {
+		if _, isInstr := p.Root.(ssa.Instruction); isInstr {
+			if _, isAlloc := p.Root.(*ssa.Alloc); !isAlloc {
+				root := describeRoot(p.Root)
+				if len(p.Elems) == 0 {
+					return root
+				}
+				return root + "." + strings.Join(p.Elems, ".")
+			}
+		}
 		return p.String()
 	}
-	return fmt.Sprintf("%s", v.Name())
+	return fmt.Sprintf("%T", v)
+}
+
+func describeRoot(v ssa.Value) string {
+	switch x := v.(type) {
+	case *ssa.Call, *ssa.Extract:
+		return "(" + describe(x) + ")"
+	case *ssa.Phi:
+		return "phi " + x.Comment
+	case *ssa.Lookup:
+		return "(" + describe(x.X) + "[...])"
+	case *ssa.IndexAddr:
+		return "(" + describe(x.X) + "[...])"
+	case *ssa.Index:
+		return "(" + describe(x.X) + "[...])"
+	case *ssa.Next:
+		return "range element"
+	case *ssa.TypeAssert:
+		return "(" + describe(x.X) + ").(type)"
+	}
+	return fmt.Sprintf("%T", v)
 }
 
 // ---------------------------------------------------------------------------
